@@ -15,3 +15,79 @@ EXPLANATION = LEVEL_TEXT
 NOT_DEDUCTIVE = ["reinitialisation of every field by reset and the absence of ambient nondeterminism (DESIGN section 7 C10 iii/iv): the generic "
                  "frame analysis was not built; bounded shell only", "bit identity of floating-point results (A1): shell only"]
 EXTRA_ASSUMPTIONS = ["ASSUMED contracts: TradingEnv._process_*_events, IState.__call__, TrackRecord._checkpoint/__getitem__"]
+
+import ast
+from pyvc import front, lemma
+
+STEP_PATH = ["step", "notify", "_process_latent_events", "_process_nonlatent_events", "now", "_is_new_date"]
+NONDET = ("random.", "np.random.", "numpy.random.", "datetime.now", "datetime.utcnow", "time.time", "uuid.", "os.urandom")
+
+
+def _self_writes(fn):
+    """attributes of self that a function assigns, augments, or mutates through a method call / subscript store"""
+    out = set()
+    for n in ast.walk(fn):
+        tgts = []
+        if isinstance(n, ast.Assign):
+            tgts = n.targets
+        elif isinstance(n, (ast.AugAssign, ast.AnnAssign)):
+            tgts = [n.target]
+        for t in tgts:
+            for x in (t.elts if isinstance(t, (ast.Tuple, ast.List)) else [t]):
+                while isinstance(x, ast.Subscript):
+                    x = x.value                      # self.d[k] = v mutates self.d
+                if isinstance(x, ast.Attribute) and isinstance(x.value, ast.Name) and x.value.id == "self":
+                    out.add(x.attr)
+        if isinstance(n, ast.Call) and isinstance(n.func, ast.Attribute) and isinstance(n.func.value, ast.Attribute) \
+                and isinstance(n.func.value.value, ast.Name) and n.func.value.value.id == "self" \
+                and n.func.attr in ("append", "appendleft", "pop", "popleft", "extend", "clear", "update", "add", "remove", "insert"):
+            out.add(n.func.value.attr)
+    return out
+
+
+def lemma_frames(tier):
+    rel = "tradingenv/env.py"
+    fns = {m: front.strip(front.find(rel, "TradingEnv." + m)) for m in STEP_PATH + ["reset"]}
+    written = set()
+    for m in STEP_PATH:
+        written |= _self_writes(fns[m])
+    # unconditional (top-level) assignments of reset
+    top = set()
+    for st in fns["reset"].body:
+        if isinstance(st, ast.Assign):
+            for t in st.targets:
+                for x in ([t] if not isinstance(t, ast.Tuple) else t.elts):
+                    if isinstance(x, ast.Attribute) and isinstance(x.value, ast.Name) and x.value.id == "self":
+                        top.add(x.attr)
+    exceptions = {"_visits"}          # a visit counter across episodes (documented; read by visits() only)
+    missing = sorted(written - top - exceptions)
+    out = [lemma.check("C10::lemma::reset_reinitialises_every_field_the_step_path_writes", not missing,
+                       "fields written on the step path: %s; assigned unconditionally by reset: %s; not re-initialised: %s"
+                       % (sorted(written), sorted(top & written), missing))]
+    found = []
+    for relp, quals in ((rel, ["TradingEnv." + m for m in STEP_PATH + ["reset"]]),
+                        ("tradingenv/transmitter.py", ["Transmitter._reset", "Transmitter._next", "Transmitter._now"]),
+                        ("tradingenv/broker/broker.py", ["Broker.rebalance", "Broker.transact", "Broker.marking_to_market", "Broker.accrued_interest",
+                                                         "Broker.net_liquidation_value", "Broker.holdings_values", "Broker.context"]),
+                        ("tradingenv/broker/rebalancing.py", ["Rebalancing.__init__", "Rebalancing.make_trades"]),
+                        ("tradingenv/exchange.py", ["Exchange.process_EventNBBO", "Exchange.process_EventContractDiscontinued", "Exchange.__getitem__"])):
+        for q in quals:
+            fn = front.strip(front.find(relp, q))
+            for n in ast.walk(fn):
+                if isinstance(n, ast.Call):
+                    try:
+                        dotted = ast.unparse(n.func)
+                    except Exception:
+                        continue
+                    for pat in NONDET:
+                        if dotted.startswith(pat) or dotted == pat.rstrip("."):
+                            found.append("%s uses %s" % (q, pat.rstrip(".")))
+    allowed = {"Transmitter._reset uses np.random", "Rebalancing.__init__ uses datetime.now"}
+    extra = sorted(set(found) - allowed)
+    out.append(lemma.check("C10::lemma::no_ambient_nondeterminism_on_the_reset_step_path", not extra,
+                           "nondeterministic calls found: %s; allowed: the episode window draw in Transmitter._reset (an input of the property) and "
+                           "`time or datetime.now()` in Rebalancing.__init__ (never reached with a clock); unexpected: %s" % (sorted(set(found)), extra)))
+    return out
+
+
+LEMMAS = [lemma_frames]
